@@ -7,12 +7,13 @@
 (*   "merge" : cells a and b merge into r -> LogMergeOK(a, b, r)           *)
 (*   "ctor"  : a constructor call: ValueError, or the ceiling decodes to   *)
 (*             max_count                                                   *)
-(* TRACE_FILE: array of batches [cfg..., calls: [...]] (tables are dense   *)
-(* sequences indexed from counter 0, DigNum integers).                     *)
+(* TRACE_FILE: [cfgs, batches]; a batch names its configuration by index;  *)
+(* tables are dense sequences indexed from counter 0 (DigNum integers).    *)
 (***************************************************************************)
 EXTENDS CMLog, DigNum, Json, IOUtils, TLC
 VARIABLES tid, l, ok
-Batches == JsonDeserialize(IOEnv.TRACE_FILE)
+Data == JsonDeserialize(IOEnv.TRACE_FILE)     \* [cfgs: the configurations (tables once), batches: [c, calls]]
+Batches == Data.batches
 RelTol(x) == DigShift(x)
 CfgOf(b) == [UMax |-> b.UMax, NR |-> b.NR, MaxCount |-> b.MaxCount,
              Val |-> [c \in 0..b.UMax |-> b.Val[c + 1]],
@@ -29,7 +30,7 @@ TInit == tid \in 1..Len(Batches) /\ l = 1 /\ ok = TRUE
 TStep ==
   /\ l <= Len(Batches[tid].calls)
   /\ LET b   == Batches[tid]
-         cfg == CfgOf(b)
+         cfg == CfgOf(Data.cfgs[b.c])
          hi  == IF l + 63 <= Len(b.calls) THEN l + 63 ELSE Len(b.calls)
          bad == {i \in l..hi : ~CallOK(cfg, b.calls[i])}
      IN  /\ ok' = (bad = {})
